@@ -569,7 +569,7 @@ fn main() {
     }
     let seed = seed();
     let thorough = tier_is_thorough();
-    let k = if thorough { 12 } else { 1 };
+    let k = if thorough { 6 } else { 1 };
     let out = out_dir("C07");
     for e in fs::read_dir(&out).unwrap().flatten() {
         let n = e.file_name().to_string_lossy().to_string();
